@@ -817,6 +817,17 @@ impl Engine for C16 {
         if case["sched"]["mode"] == "segments" {
             let segs = case["sched"]["segs"].as_array().unwrap();
             v.extend(crate::hostsim::segment_deletions(segs).into_iter().map(|s| set("sched", json!({"mode": "segments", "segs": s}))));
+            // last resort, a bounded number of times: look for the same violation under fresh, very
+            // sticky schedules (few context switches by construction)
+            let left = case["resample_left"].as_u64().unwrap_or(3);
+            if segs.len() > 24 && left > 0 {
+                let mut r = Rng(fnv(0, &serde_json::to_vec(&case["sched"]).unwrap()));
+                for _ in 0..24 {
+                    let mut c = set("sched", json!({"mode": "random", "seed": r.next() >> 1, "p_clock": case["sched_p_clock"].as_u64().unwrap_or(0), "sticky": r.pick(&[95u64, 98, 99])}));
+                    c["resample_left"] = json!(left - 1);
+                    v.push(c);
+                }
+            }
         }
         v
     }
